@@ -5,9 +5,10 @@ PATCH=$(readlink -f "$1"); PID=$2; TIER=${3:-quick}
 T=$(mktemp -d /tmp/trial-XXXXXX)
 rsync -a --exclude .git /repo/ "$T/"
 (cd "$T" && patch -p1 -s < "$PATCH")
+TAG=$(python3 -c "import hashlib,sys;print(hashlib.sha1(sys.argv[1].encode()).hexdigest()[:8])" "$T")
 cd /verif
 set +e
 VERIF_REPO="$T" python3 run.py "$PID" --tier "$TIER"
 RC=$?
-rm -rf "$T" /verif/harness/alt.* /verif/harness/bin/*.????????
+rm -rf "$T" /verif/harness/alt.$TAG.* /verif/harness/bin/*.$TAG
 echo "exit=$RC"
